@@ -312,7 +312,7 @@ SURVIVOR_RULES = [
     (r"model/protocol/protocol_(14|20)\.py", lambda r: r["operator"] == "const-bool",
      "message_buffer flag of an INTERNAL reply (version query, reboot, id response, config, time, presentation request, "
      "discover): internal messages are written through whatever the flag says (fix 6df9f4f), so nothing can be parked"),
-    (r"model/protocol/protocol_14\.py", lambda r: r["line"] in (141, 142), "Node.set_child_value raises the same "
+    (r"model/protocol/protocol_14\.py", lambda r: r["line"] in (142, 143), "Node.set_child_value raises the same "
                                                                          "MissingChildError one call later"),
     (r"exceptions\.py", lambda r: r["line"] in (98, 99), "text of the transport read error (partial bytes appended or not)"),
     (r"model/protocol/protocol_(15|21|22)\.py", lambda r: r["operator"].startswith("const-int"),
@@ -323,28 +323,29 @@ SURVIVOR_RULES = [
      "validator consults them (any integer type is accepted, C01)"),
     (r"persistence\.py", lambda r: r["line"] == 18 and r["new"] == "899", "saves more often than required"),
     (r"persistence\.py", lambda r: r["line"] in (29, 33, 34, 35), "dataclass field options (init / repr / compare)"),
-    (r"persistence\.py", lambda r: r["line"] == 109, "the re-raise only matters for a stop() that is itself cancelled before the "
-                                                    "saver ever ran; C16's cancelled-exit workloads then still see the final "
-                                                    "state they demand"),
+    (r"persistence\.py", lambda r: r["line"] in (105, 113, 114), "inside fix 6ac75f3: current_task is never None inside a task (so the "
+     "fallback 0 is dead); the re-raise only matters for a stop() whose CALLER is cancelled while it waits for a saver that "
+     "never ran (a second cancellation inside that one await): C16's cancelled-exit and task-sweep workloads then still "
+     "see the final state they demand"),
     (r"persistence\.py", lambda r: r["line"] in (90, 91, 93, 94) or "save.cancelled()" in r["old"],
      "inside fix d69dcef: when the cancellation is not caught there the SHIELDED save still runs to its end holding the save "
      "lock (74bd270), so the final save cannot overtake it; retrieving the save's exception only silences a warning"),
-    (r"persistence\.py", lambda r: r["line"] in (116, 118), "stop() without start() / second stop(): outside C16"),
+    (r"persistence\.py", lambda r: r["line"] in (123, 125), "stop() without start() / second stop(): outside C16"),
     (r"transport/__init__\.py", lambda r: "drain" in r["old"], "without drain the bytes still reach the peer in call order "
                                                               "(asyncio flushes on close); only flow control is lost, "
                                                               "which C17 does not state"),
     (r"transport/mqtt\.py", lambda r: r["line"] in (25, 26), "internal tag strings of the inbox records"),
     (r"transport/mqtt\.py", lambda r: r["line"] in (72, 74), "QoS of the SUBSCRIPTIONS (derived from a '+' level: always "
                                                             "the fallback); C18 fixes only the publish QoS"),
-    (r"transport/mqtt\.py", lambda r: r["line"] in (86, 89, 90, 94, 95), "defensive branches for inbox records that cannot "
+    (r"transport/mqtt\.py", lambda r: r["line"] in (93, 96, 97, 101, 102), "defensive branches for inbox records that cannot "
                                                                         "be produced"),
     (r"transport/(mqtt|serial|tcp)\.py", lambda r: r["old"] in ("1883", "115200", "5003", "10"),
      "default port / baud rate / client timeout"),
-    (r"transport/mqtt\.py", lambda r: r["line"] in (200, 201, 219, 220, 240, 241, 257, 258, 267, 268),
+    (r"transport/mqtt\.py", lambda r: r["line"] in (207, 208, 226, 227, 247, 248, 264, 265, 274, 275),
      "RuntimeError guards against misuse of MQTTClient (publish before connect, connect twice): C18 does not state them"),
-    (r"transport/mqtt\.py", lambda r: r["line"] in (227, 228), "retrieving the receive task's result at disconnect: only "
+    (r"transport/mqtt\.py", lambda r: r["line"] in (234, 235), "retrieving the receive task's result at disconnect: only "
                                                               "silences 'exception never retrieved'"),
-    (r"transport/mqtt\.py", lambda r: r["line"] == 244, "empty payload published as '' instead of None: same MQTT packet"),
+    (r"transport/mqtt\.py", lambda r: r["line"] == 251, "empty payload published as '' instead of None: same MQTT packet"),
 ]
 
 
